@@ -2011,7 +2011,12 @@ class DensityMatrixMixer(Mixer):
             rho_L.iscale_axis(mix_L, 'wR')
             rho_L = npc.tensordot(rho_L, rho_c, axes=[['wR', '(p1.vR)'], ['wR*', '(p1*.vR*)']])
             if explicit_plus_hc:
-                rho_L = rho_L + rho_L.conj().itranspose()
+                # H = H' + H'^dagger: mix with the hermitian conjugates of the left parts of H' as well
+                rho_hc = npc.tensordot(LHeff.conj().ireplace_label('wR*', 'wR'), theta, axes=['(vR.p0*)', '(vL.p0)'])
+                rho_hc.ireplace_label('(vR*.p0)', '(vL.p0)')
+                rho_c = rho_hc.conj()
+                rho_hc.iscale_axis(mix_L, 'wR')
+                rho_L = rho_L + npc.tensordot(rho_hc, rho_c, axes=[['wR', '(p1.vR)'], ['wR*', '(p1*.vR*)']])
             if IdL is None:  # can't set mix_L[IdL] = 1.
                 rho_L = rho_L + npc.tensordot(theta, theta.conj(), axes=['(p1.vR)', '(p1*.vR*)'])
         else:
@@ -2025,7 +2030,11 @@ class DensityMatrixMixer(Mixer):
             rho_R.iscale_axis(mix_R, 'wL')
             rho_R = npc.tensordot(rho_c, rho_R, axes=[['wL*', '(vL*.p0*)'], ['wL', '(vL.p0)']])
             if explicit_plus_hc:
-                rho_R = rho_R + rho_R.conj().itranspose()
+                rho_hc = npc.tensordot(theta, RHeff.conj().ireplace_label('wL*', 'wL'), axes=['(p1.vR)', '(p1*.vL)'])
+                rho_hc.ireplace_label('(p1.vL*)', '(p1.vR)')
+                rho_c = rho_hc.conj()
+                rho_hc.iscale_axis(mix_R, 'wL')
+                rho_R = rho_R + npc.tensordot(rho_c, rho_hc, axes=[['wL*', '(vL*.p0*)'], ['wL', '(vL.p0)']])
             if IdR is None:
                 rho_R = rho_R + npc.tensordot(theta.conj(), theta, axes=['(vL*.p0*)', '(vL.p0)'])
         else:
